@@ -32,7 +32,7 @@ def joinSlash : List (List Char) → List Char
   | [p] => p
   | p :: rest => p ++ '/' :: joinSlash rest
 
-def utf8 (t : List Char) : List UInt8 := t.utf8Encode.toList
+def utf8 (t : List Char) : List UInt8 := (String.ofList t).toUTF8.data.toList
 
 def decodeUtf8 (b : List UInt8) : Option (List Char) := (ByteArray.mk b.toArray).utf8Decode?.map Array.toList
 
